@@ -21,7 +21,16 @@
 From OV Require Import Common.Base.
 Open Scope N_scope.
 
-Inductive variant := Repaired | Defective.
+(* which of today's defects a variant reproduces; Repaired = none, Defective = all (the code today).
+   Intermediate combinations exist so that the check keeps working while fixes are applied one by one. *)
+Record variant := mkV {
+  d1 : bool;   (* startNCP falls back to the constant 100.64.0.1 *)
+  d2 : bool;   (* releases are not owner-checked *)
+  d3 : bool;   (* DHCPv4 expiry take-over releases the registry lease by address *)
+  d5 : bool    (* AAA addresses outside every pool are not recorded *)
+}.
+Definition Repaired : variant := mkV false false false false.
+Definition Defective : variant := mkV true true true true.
 Inductive fam := F4 | F6 | FD.
 Definition fam_eqb (a b : fam) : bool :=
   match a, b with F4, F4 | F6, F6 | FD, FD => true | _, _ => false end.
@@ -114,7 +123,7 @@ Definition pool_reserve (p : pool) (sl s : N) : option pool :=
   end.
 (* Release.  R2 (Repaired): only the owner's release frees the lease. *)
 Definition owner_ok (v : variant) (o s : N) : bool :=
-  match v with Repaired => o =? s | Defective => true end.
+  if d2 v then true else o =? s.
 Definition pool_release (v : variant) (p : pool) (sl s : N) : pool :=
   match lease_of p sl with
   | Some o => if owner_ok v o s then with_lf p (unassoc sl (p_leases p)) (p_free p ++ [sl]) else p
@@ -172,14 +181,11 @@ Definition reserve_in (r : reg) (p : pool) (x : item) (s : N) : reg * bool :=
 Definition reserve_cont (v : variant) (f : fam) (x : item) (vrf s : N) (r : reg) : list (reg * bool) :=
   match filter (fun p => contains p x) (fam_pools f r) with
   | [] =>
-      match v with
-      | Defective => [(r, true)]
-      | Repaired =>
-          match sassoc (f, vrf, x) (statics r) with
-          | Some o => [(r, o =? s)]
-          | None => [(mkReg (pools r) (((f, vrf, x), s) :: statics r), true)]
-          end
-      end
+      if d5 v then [(r, true)]
+      else match sassoc (f, vrf, x) (statics r) with
+           | Some o => [(r, o =? s)]
+           | None => [(mkReg (pools r) (((f, vrf, x), s) :: statics r), true)]
+           end
   | cs => map (fun p => reserve_in r p x s) cs
   end.
 
@@ -193,13 +199,11 @@ Definition release_pool (v : variant) (f : fam) (key : N) (x : item) (s : N) (r 
   | None => r
   end.
 Definition release_static (v : variant) (f : fam) (x : item) (vrf s : N) (r : reg) : reg :=
-  match v with
-  | Defective => r
-  | Repaired => match sassoc (f, vrf, x) (statics r) with
-                | Some o => if o =? s then mkReg (pools r) (sunassoc (f, vrf, x) (statics r)) else r
-                | None => r
-                end
-  end.
+  if d5 v then r
+  else match sassoc (f, vrf, x) (statics r) with
+       | Some o => if o =? s then mkReg (pools r) (sunassoc (f, vrf, x) (statics r)) else r
+       | None => r
+       end.
 (* ReleaseIP / ReleaseIANAByIP: every pool of the family; ReleasePDByPrefix: the first containing pool *)
 Definition release_all (v : variant) (f : fam) (x : item) (s : N) (r : reg) : reg :=
   mkReg (map (fun p => if fam_eqb (p_fam p) f
@@ -250,8 +254,8 @@ Definition prov_reserve (v : variant) (pr : prov) (r : reg) (ip mac sid : N) (po
             let l' := mkLease (l_ip l) (l_mac l) (l_sid l) (l_pool l) false in
             (mkProv (lset id l' (objs pr)) (by_mac pr) (by_ip pr) (next_obj pr), r, true)
           else if l_exp l then
-            let r' := match v, l_pool l with
-                      | Defective, Some k => release_pool Defective F4 k (l_ip l, 0) (l_sid l) r
+            let r' := match d3 v, l_pool l with
+                      | true, Some k => release_pool Defective F4 k (l_ip l, 0) (l_sid l) r
                       | _, _ => r
                       end in
             let pr' := mkProv (objs pr) (unassoc (l_mac l) (by_mac pr)) (unassoc ip (by_ip pr)) (next_obj pr) in
@@ -381,9 +385,9 @@ Definition step_pa (v : variant) (st : state) (s : sess) (vrf : N) (s4 s6 : opti
                  end in
       map (fun cd : reg * option item => let (r3, ad) := cd in
         (* R1 (Repaired): no constant fall-back; without an address IPCP is not started *)
-        let a4' := match a4, v with
-                   | None, Defective => Some (addr_item fallback_addr)
-                   | _, _ => a4
+        let a4' := match a4 with
+                   | None => if d1 v then Some (addr_item fallback_addr) else None
+                   | Some _ => a4
                    end in
         let s' := mkSess (s_id s) true (s_prof4 s) (s_prof6 s) (s_mac s) true true vrf ov4 ov6 None
                          (oaddr a4') (oaddr a6) ad p4 p6 (oaddr a4') false None None None in
